@@ -134,8 +134,8 @@ REO_Plain = re.compile(r'^[^ "]+$')
 
 #regex object determine if lat or lon is in human readable form
 #REO_LATLONPOS = re.compile(r'^([0-9]+)[N,E,n,e]([0-9]+\.[0-9]+)$')
-REO_LatLonNE = re.compile(r'^(\d+)[N,E,n,e](\d+\.\d+)$')
-REO_LatLonSW = re.compile(r'^(\d+)[S,W,s,w](\d+\.\d+)$')
+REO_LatLonNE = re.compile(r'^(\d+)[NEne](\d+\.\d+)$')
+REO_LatLonSW = re.compile(r'^(\d+)[SWsw](\d+\.\d+)$')
 #Usage
 # ll = REO_LatLonNE.findall(s) #returns list of tuples of groups [(deg,min)]
 # if ll:
